@@ -40,7 +40,9 @@ def run_history(rec, cfg, script, sid=1, variant=0):
             op = "get" if len(oids) == 1 else "get_many"
             if (variant + nsend) % 3 == 0 and len(oids) == 1:
                 op = "getnext"
-            w, exc = sess.send(op, oids if op != "getnext" else oids[:1])
+            if (variant + nsend) % 5 == 1:
+                op = "getbulk"                      # every kind of request goes through the cipher's private buffer
+            w, exc = sess.send(op, oids if op not in ("getnext", "getbulk") else oids[:1], maxrep=4 if op == "getbulk" else None)
             req = ag.Request(cfg, w) if w is not None else None
         elif act == "reply-enc":
             if req is None:
@@ -49,7 +51,7 @@ def run_history(rec, cfg, script, sid=1, variant=0):
                 sess.recv(op)
                 req = None
                 continue
-            vbs = [(n, ("int", 7)) for n in req.names] if op != "getnext" else [(list(req.names[0]) + [1], ("int", 7))]
+            vbs = [(n, ("int", 7)) for n in req.names] if op not in ("getnext", "getbulk") else [(list(req.names[0]) + [1], ("int", 7))]
             vbs = [(bytes(n) if not isinstance(n, list) else bytes(n), v) for n, v in vbs]
             advance()
             sess.inject(agent.reply(cfg, req, vbs))
